@@ -880,6 +880,17 @@ pub fn crosscheck_main<P: Property>(n: u64) -> i32 {
     let base = base_seed();
     let seeded = seeded_budget::<P>(Tier::Quick);
     let parent = make_scratch_parent();
+    // the worker may drop its privileges: run copies that any uid can reach
+    let bins = {
+        let d = parent.join("bins");
+        let _ = fs::create_dir_all(&d);
+        let _ = fs::set_permissions(&d, fs::Permissions::from_mode(0o755));
+        for b in ["find", "xargs"] {
+            let _ = fs::copy(bins.join(b), d.join(b));
+            let _ = fs::set_permissions(d.join(b), fs::Permissions::from_mode(0o755));
+        }
+        d
+    };
     let start = Instant::now();
     let (tried, compared, disagreements) = with_ctx::<P, _>(parent.clone(), "xc".into(), true, move |ctx| {
         let mut tried = 0u64;
